@@ -10,64 +10,64 @@ HOOK_COMMITS = ["a5caae7"]
 # id -> (engine, technique, level text, level note, design ref)
 CLAIMS = {
     "C05": ("vm", "runtime monitoring: totality monitor (catch_unwind + worker exit status) + resource-bound assertions at the after_op hook + reference-model lock-step, in overflow-checked and unchecked builds",
-            "Every generated program (all 2-op programs over the boundary alphabet from 6-12 limit states, ~50k grammar/random programs, random byte strings through exec_bytecode) ran on the real VM in a dev (overflow-checked) and a release (wrapping) build; a panic, an abort of the worker, or stack>4096 / memory>10240 / repeat depth>4096 / compute depth>1 seen after any executed op (including ops inside compute children on rayon threads) would have been reported. Exploration: held on the executions produced, nothing more.",
+            "Every generated program (all 2-op programs over the boundary alphabet from 6-12 limit states, ~50k grammar/random programs, random byte strings through exec_bytecode) ran on the real VM in a dev (overflow-checked) and a release (wrapping) build; a panic, an abort of the worker, or stack>4096 / memory>10240 / repeat depth>4096 / compute depth>1 seen after any executed op (including ops inside compute children on rayon threads) would have been reported. Also run: the state-read, control-flow, access/crypto and EqSet matrices (boundary addresses and counts, halts inside loops, every entry program counter, Sha256 lengths around block switches, predicate-data slots around 1024/8192/10000 words), mid-range sizes (15..4000) for every length / depth / count operand, programs of up to ~3000 ops, Compute breadths up to 10000. The monitor keeps its own account of the compute nesting depth (top-level Vm address + depth), independent of the implementation's parent_memory field. Exploration: held on the executions produced, nothing more.",
             "trusted: the hook placement (after every step_op), catch_unwind, the reference model for wrap detection in release builds. Known finding D11 (allocator abort for Compute breadth >= 5e7) is executed on every run and printed as KNOWN-FINDING.", "5 C05"),
     "C07": ("vm", "runtime monitoring: cost-function spy (exact 128-bit sum of handed-out costs) + sequential exact-gas reference model + bounded-progress bound on cost queries",
-            "Programs with loops, jumps and Compute under cost functions {0, 1, tables, 2^62, 2^63, u64::MAX} and limits placed at total-1 / total / total+1 / random: Ok(g) must equal the spy's sum and the model's total and be <= limit; Ok/Err must match the sequential model; a top-level out-of-gas must leave the machine exactly in the state before the refused op; cost queries are bounded by (2+children)(L/cmin+1).",
+            "Programs with loops, jumps and Compute under cost functions {0, 1, tables, 2^62, 2^63, u64::MAX} and limits placed at total-1 / total / total+1 / random: Ok(g) must equal the spy's sum and the model's total and be <= limit; Ok/Err must match the sequential model; a top-level out-of-gas must leave the machine exactly in the state before the refused op; cost queries are bounded by (2+children)(L/cmin+1). Gas probes use breadths 1-8 and, rarely, 65..4097 so that a batched join needs several rounds.",
             "termination is only checked as bounded progress in executed operations (DESIGN.md section 7); which nested error wraps an out-of-gas is not compared", "5 C07"),
     "C08": ("vm", "runtime monitoring: online lock-step comparison of stack/memory/repeat depth with a spec-derived reference model at the after_op hook, over exhaustive op x operand matrices and random programs",
-            "Every plain op x every pair from a 29-value boundary alphabet x 3 machine states (empty, small, at-the-limits) plus grammar-generated programs; after every executed top-level op the whole stack and memory are compared with the model, so a wrong result, a wrongly succeeding/failing op or a clobbered unrelated word is caught at the op that caused it.",
+            "Every plain op x every pair from a 29-value boundary alphabet x 3 machine states (empty, small, at-the-limits) plus grammar-generated programs; after every executed top-level op the whole stack and memory are compared with the model, so a wrong result, a wrongly succeeding/failing op or a clobbered unrelated word is caught at the op that caused it. Plus an EqSet matrix (0..130 elements, repeats on either side, both operand orders) and mid-range sizes (15..4000) for range lengths, depths, allocations.",
             "model arithmetic in i128; Mod(MIN,-1) unspecified; error kinds not compared (only Ok/Err and index)", "5 C08"),
     "C09": ("vm", "runtime monitoring: lock-step program-counter / repeat-counter comparison with the reference model, jump-distance and repeat-count matrices, exact gas as trip-count witness",
-            "All jump distances in [-len-2, len+2] plus i64 extremes x conditions {-1,0,1,2} at several positions; repeat counts {MIN,-1,0,1,2,3,17,200|4096} x directions {-1,0,1,2}, nested pairs, nesting to 4095/4096/4097; HaltIf/PanicIf conditions; random control-heavy programs. pc is compared before every op, counters via RepeatCounter values on the stack, trip counts via exact gas at cost 1.",
+            "All jump distances in [-len-2, len+2] plus i64 extremes x conditions {-1,0,1,2} at several positions; repeat counts {MIN,-1,0,1,2,3,17,200|4096} x directions {-1,0,1,2}, nested pairs, nesting to 4095/4096/4097; HaltIf/PanicIf conditions; random control-heavy programs. pc is compared before every op, counters via RepeatCounter values on the stack, trip counts via exact gas at cost 1. Halts inside active loops at every counter value (the loops must stay active: final repeat depth is compared), every entry program counter of a small program including at and past its end, list and mapped form.",
             "JumpIf(cond 0, dist 0) and ComputeEnd at depth 0 are unspecified and not judged", "5 C09"),
     "C10": ("vm", "runtime monitoring: Compute compared with a sequential-loop reference model after the join, same case re-executed under rayon pools of 1..16 threads with injected delays; divergences are diagnosed by re-running children stand-alone under lock-step",
-            "Compute-heavy programs (breadth -1..64, sometimes 200-3000; index-dependent allocation, halts, jumps, parent-memory reads, failing children, nested compute) x pools {1,3,8} (thorough {1,2,3,5,8,16}) x seeded delays injected from the cost spy inside the rayon tasks: parent stack/memory/pc/gas/Ok-Err must equal the sequential model; number of charged ops must equal the model's.",
+            "Compute-heavy programs (breadth -1..64, sometimes 200-3000; index-dependent allocation, halts, jumps, parent-memory reads, failing children, nested compute) x pools {1,3,8} (thorough {1,2,3,5,8,16}) x seeded delays injected from the cost spy inside the rayon tasks: parent stack/memory/pc/gas/Ok-Err must equal the sequential model; number of charged ops must equal the model's. A join matrix puts the children's combined allocation just below / at / above the memory limit (for the children alone and for parent + children) for parent memories 0..10240, breadths 1..16, three child endings and parent stacks at the limit; breadths 3000..10000 occur in every run.",
             "if every child ends at or before the Compute op the resume position is unspecified", "5 C10"),
     "C11": ("vm", "runtime monitoring: recording StateRead spy (exact request log at the API boundary) + scripted result shapes + reference memory image",
-            "4 read ops x key lengths x counts {-1,0,1,2,7,MAX} x memory sizes x addresses (negative, 0, mid, end-1, end, end+1, MAX) x 8 scripted result shapes (empty, ragged, fewer/more than asked, error) with differently-answering pre and post views; the spy log must show exactly one request with the expected view/contract/key/count, memory must equal the documented layout, nothing else may change.",
+            "4 read ops x key lengths x counts {-1,0,1,2,7,MAX} x memory sizes x addresses (negative, 0, mid, end-1, end, end+1, MAX) x 8 scripted result shapes (empty, ragged, fewer/more than asked, error) with differently-answering pre and post views; the spy log must show exactly one request with the expected view/contract/key/count, memory must equal the documented layout, nothing else may change. A second matrix reads 63..2048 keys into memory that fits exactly / is one word short, with dense and sparse state.",
             "zero returned values with an out-of-range address is unspecified", "5 C11"),
     "C12": ("vm", "runtime monitoring: lock-step differential of access/crypto ops against solution data and the essential-hash / essential-sign crates (+ ed25519-dalek, secp256k1 directly)",
-            "PredicateData* over all (slot, index, len) in and out of range for several multi-solution sets and every solution index; This*Address; PredicateExists for genuine and bit-flipped hashes, also from 8 concurrent compute children; Sha256 for every byte length 0..80 (200 thorough); genuine and corrupted ed25519 / secp256k1 signatures, recovery ids -1..5.",
+            "PredicateData* over all (slot, index, len) in and out of range for several multi-solution sets and every solution index; This*Address; PredicateExists for genuine and bit-flipped hashes, also from 8 concurrent compute children; Sha256 for every byte length 0..80 (200 thorough); genuine and corrupted ed25519 / secp256k1 signatures, recovery ids -1..5. Several solutions may share a predicate address (different or equal data); a 100-solution set; predicate-data slots of 1023..10000 words; Sha256 lengths in windows around multiples of 64 / 512 bytes up to the largest message the stack holds.",
             "SHA-256 / curve implementations themselves are trusted", "5 C12"),
     "C14": ("vm", "runtime monitoring: differential execution exec_ops vs exec_bytecode from identical states (final Vm, gas, error index) + lock-step check that the op executed at each pc is the op of the list",
             "Random, control-heavy and compute-heavy programs and the control matrices are executed through both OpAccess paths; mapping of byte strings vs parsing is covered by the codec engine stage.",
             "nested child error payloads are not compared", "5 C14"),
     "C13": ("codec", "runtime monitoring: three independent sources compared pairwise on every input - the generated codec's behaviour, the harness' own reader of asm.yml with its own table-driven decoder, and the pinned opcode table",
-            "All 256 bytes x immediate lengths, all 62x62 opcode pairs, bit-walking Push immediates and every opcode byte at every immediate position (exhaustive), ~10^6 random programs / truncations / bit flips / raw strings: parse result, error kind (InvalidOpcode(b) / NotEnoughBytes), op identity by Debug path, immediate endianness, re-serialisation to the identical bytes, short constants by name.",
+            "All 256 bytes x immediate lengths, all 62x62 opcode pairs, bit-walking Push immediates and every opcode byte at every immediate position (exhaustive), ~10^6 random programs / truncations / bit flips / raw strings: parse result, error kind (InvalidOpcode(b) / NotEnoughBytes), op identity by Debug path, immediate endianness, re-serialisation to the identical bytes, short constants by name. An alignment sweep puts Push-bearing probes behind every filler length 0..8300 bytes (every offset near 1024/2048/3072/4096/8192), and programs of 1000-10000 ops occur in every run.",
             "pinned/opcodes.tsv was generated from asm.yml at the baseline commit (asm.yml is unchanged since); the Debug rendering of Opcode is used as the op's name", "5 C13"),
     "C15": ("codec", "runtime monitoring: effect queries compared with a fold over the parsed program for all 64 effect subsets",
-            "For every valid byte string of the codec workload (immediates filled with the six effect opcode bytes, effect ops directly after Push): bytes_contains_any for each of the 64 subsets and analyze() against the set of effect-bearing ops found by parsing; all 64 combinations of present effects occur in every run.",
+            "For every valid byte string of the codec workload (immediates filled with the six effect opcode bytes, effect ops directly after Push): bytes_contains_any for each of the 64 subsets and analyze() against the set of effect-bearing ops found by parsing; all 64 combinations of present effects occur in every run; the alignment sweep of C13 is judged here as well (long effect-free stretches followed by a Push whose immediate is made of effect / Push opcode bytes).",
             "the six effect-bearing ops are identified by their spec names", "5 C15"),
     "C17": ("formats", "runtime monitoring: addresses recomputed by an independent encoder (own predicate encoder, own minimal postcard writer, own sort+concat) + metamorphic permutation / perturbation checks + bucketing of all pre-hash byte strings of a run",
-            "Per round a predicate, program, contract, solution and set within limits: address == SHA-256(harness-computed pre-hash bytes); encoded_size == actual length; all helper entry points agree; permutation of predicates / solutions leaves the address unchanged; every single-field or near-collision perturbation (word moved between key and value or between slots, duplicated member, salt bit) changes the hashed bytes; no two distinct values of the run share pre-hash bytes.",
+            "Per round a predicate, program, contract, solution and set within limits: address == SHA-256(harness-computed pre-hash bytes); encoded_size == actual length; all helper entry points agree; permutation of predicates / solutions leaves the address unchanged; every single-field or near-collision perturbation (word moved between key and value or between slots, duplicated member, salt bit) changes the hashed bytes; no two distinct values of the run share pre-hash bytes. Exhaustive: all predicates of <= 3 nodes x <= 3 edges over an edge_start alphabet; member counts include 99/100/101/130, predicate sizes include 17..513 and 999/1000 nodes; sets may list a solution twice.",
             "SHA-256 collision resistance; predicates above the limits (all-zero address by design) are out of scope", "5 C17"),
     "C18": ("formats", "runtime monitoring: round-trip identities over random and boundary values through every codec (wire, words/bytes/hex, Display/FromStr, JSON, postcard) + own slice rule for node_edges",
-            "decode(encode(x)) == x for predicates (0..1000 nodes/edges, any edge_start) and mutation lists; words<->bytes<->hex; 32/64/65-byte array conversions in both directions; JSON and postcard round trips of Contract, SignedContract, Predicate, Program, Solution, SolutionSet, Mutation, ContentAddress, PredicateAddress, Signature; hex-string form in human-readable formats; legacy field names; node_edges(i) against the documented slice for every index.",
+            "decode(encode(x)) == x for predicates (0..1000 nodes/edges, any edge_start) and mutation lists; words<->bytes<->hex; 32/64/65-byte array conversions in both directions; JSON and postcard round trips of Contract, SignedContract, Predicate, Program, Solution, SolutionSet, Mutation, ContentAddress, PredicateAddress, Signature; hex-string form in human-readable formats; legacy field names; node_edges(i) against the documented slice for every index. Exhaustive: all lists of <= 3 mutations with key/value lengths 0..2; lists of 17..1000 mutations and predicates of 17..600 nodes/edges occur in every run.",
             "serde_json and postcard themselves are trusted", "5 C18"),
     "C01": ("scen", "runtime monitoring: real two-pass checker vs an independent sequential graph evaluator; every node's actual input observed at the VM hook, beacon event log checked offline (exactly-once, after-parents), renumbered twin graphs",
             "Per scenario (random DAGs in topological / reversed / random numberings, marker and empty-slice leaves, multi-edges, raw malformed and cyclic encodings; programs that work on any input; 1-5 solutions; both collect_all_failures values): Ok/Err, failing solution and node indices, total gas and computed mutations must equal the reference; each node must start exactly once, after its parents, from exactly the concatenation of its parents' results in ascending order (observed at the after_op hook, compared word for word); malformed/cyclic graphs must be rejected without any node of that solution running to acceptance.",
             "reference evaluator (harness/vh/src/scen.rs) executes node programs with the real VM - the VM has its own checks (C05-C12); tolerances of DESIGN.md 5/C01-T (nodes downstream of a failure, first decoding error)", "5 C01"),
     "C02": ("scen", "runtime monitoring: the same scenario re-executed under rayon pools of 1..16 threads with seeded delays injected from inside the tasks (state spy); results compared exactly; distinct task start/end orders counted from the beacon log",
-            "Each scenario (wider graphs, up to 8 solutions) runs under pools {1,2,5,16} x 2 delay seeds (thorough {1,2,3,5,8,16} x 4): Ok/Err, failing solution and node indices, gas and computed mutations in order must be identical across all runs and equal to the sequential reference; Compute-level determinism under pools is covered by C10's pool matrix.",
+            "Each scenario (wider graphs, up to 8 solutions) runs under pools {1,2,5,16} x 2 delay seeds (thorough {1,2,3,5,8,16} x 4): Ok/Err, failing solution and node indices, gas and computed mutations in order must be identical across all runs and equal to the sequential reference; Compute-level determinism under pools is covered by C10's pool matrix. The order in which failing solutions / nodes are reported is part of the compared result; check_set_predicates and check_predicate (called once per solution and run mode) must agree; forks inside loops whose children leave with a loop of their own still active; sets of 17..40 solutions.",
             "error payloads are not compared (rayon returns an arbitrary child's error); a run observing fewer than 10 distinct task orders is inconclusive", "5 C02"),
     "C03": ("scen", "runtime monitoring: observed-value beacons (the words a program just read travel out through a zero-count read) compared with the harness' overlay map; pass separation and exactly-once from the event log",
-            "Scenarios with post/pre readers at roots, middle nodes and leaves (own and external contracts, counts 0-4, key lengths 0-2, keys at word carry, deletions, declared and computed mutations, several solutions per contract): every observed range must equal overlay(declared + first-pass computed, empty = deleted, else pre-state); pre-reads must not see mutations; no post-dependent node may start before the last first-pass node of any solution has ended; results are compared with the reference evaluated over the harness' own overlay.",
+            "Scenarios with post/pre readers at roots, middle nodes and leaves (own and external contracts, counts 0-4, key lengths 0-2, keys at word carry, deletions, declared and computed mutations, several solutions per contract): every observed range must equal overlay(declared + first-pass computed, empty = deleted, else pre-state); pre-reads must not see mutations; no post-dependent node may start before the last first-pass node of any solution has ended; results are compared with the reference evaluated over the harness' own overlay. Readers may sit behind control flow (a Halt that is jumped over); ranges of 65..600 keys; the single-predicate entry point is driven too.",
             "conflicting values for one contract/key from different solutions are the D2 class (C04's known finding): overlay order is then the set order", "5 C03"),
     "C04": ("scen", "runtime monitoring: metamorphic re-execution of every set under reversal, rotation and random permutation of its solutions",
-            "Content address, check_set verdict, two-pass verdict, total gas and computed mutations per solution (mapped through the permutation) must be identical; sets in which two solutions give one contract/key different values are detected by the harness and carry the D2 signature (KNOWN-FINDING, canonical witness executed every run); any other order dependence is a VIOLATION.",
+            "Content address, check_set verdict, two-pass verdict, total gas and computed mutations per solution (mapped through the permutation) must be identical; sets in which two solutions give one contract/key different values are detected by the harness and carry the D2 signature (KNOWN-FINDING, canonical witness executed every run); any other order dependence is a VIOLATION. Sets may list the same solution twice (adjacent or not) and have 1-6, 17-40 or 100 solutions.",
             "known finding D2 is recorded in known_findings.json and not repaired (see DESIGN.md section 4)", "5 C04"),
     "C06": ("total+scen", "runtime monitoring: totality monitor (catch_unwind with panic location, worker exit status under an 8 GiB address-space cap, write-ahead case log) over exhaustive short and random hostile inputs",
             "Every word string of length <= 4 over a 9-value boundary alphabet plus mutated encodings through decode_mutation(s); truncated / bit-flipped / count-lying / random bytes through Predicate::decode and all accessors, from_bytes, BytecodeMapped, effects; over-limit sets and contracts through every validator; the two-pass checker on scenarios with 50 % malformed or cyclic graph encodings, 40 % malformed data outputs and 30 % hostile read counts (-1 .. i64::MAX) on contracts present and absent in the post-state.",
             "documented preconditions are honoured (check_set_predicates gets validated sets; GetProgram/GetPredicate are total)", "5 C06"),
     "C16": ("limits+scen", "runtime monitoring: validators compared with the acceptance predicate written from the property text at 0 / 1 / limit-1 / limit / limit+1 of every dimension; every set returned by the mutation-computing check is re-validated",
-            "~10^6 generated sets / predicates / contracts / signed contracts with one dimension at a boundary; ~12 000 scenarios whose computed mutations overlap declared keys, each other and second-pass outputs: the returned set must pass check_set_state_mutations.",
+            "~10^6 generated sets / predicates / contracts / signed contracts with one dimension at a boundary; ~12 000 scenarios whose computed mutations overlap declared keys, each other and second-pass outputs: the returned set must pass check_set_state_mutations. The item carrying a boundary value sits at a random position (solution, slot, mutation); mid-range sizes (16..4097) and two dimensions at once occur.",
             "recoverability of a signature is decided with secp256k1 directly", "5 C16"),
     "C19": ("sign", "runtime monitoring: differential sign/recover/verify with tamper matrix, malformed-signature totality, injectivity bucketing of word encodings, VM RecoverSecp256k1 on the encoded words",
-            "30 000 keys x contracts: recover(sign(c, sk)) == pk(sk) under any predicate order; after any content change recovery no longer yields the signer; recovery ids 0..255, bit flips, all-ones, zero and random signatures give errors (never panics) consistently across recover / verify / check_signed_contract; key and signature words equal the documented layout, are pairwise distinct, and the VM op consumes/produces exactly them.",
+            "30 000 keys x contracts: recover(sign(c, sk)) == pk(sk) under any predicate order; after any content change recovery no longer yields the signer; recovery ids 0..255, bit flips, all-ones, zero and random signatures give errors (never panics) consistently across recover / verify / check_signed_contract; key and signature words equal the documented layout, are pairwise distinct, and the VM op consumes/produces exactly them. Contracts of up to 100 predicates and with a predicate at the validator's limits (up to 1000 nodes/edges) occur in every run.",
             "secp256k1 itself is trusted", "5 C19"),
     "C20": ("lock", "runtime monitoring: unique-id append-only histories with call/return stamps checked offline for a single total order consistent with observed predecessors and real time; Miri many-seeds (data races, UB, deadlock); TSan in the thorough tier",
-            "~3000 short native histories with 2-8 threads, 1-3 locks and closures of varying duration plus 16-thread histories of 200 000 ops; 8 Miri schedules (64 thorough) of 3 threads x 6 ops; overlap flag, lost/duplicated/torn updates, wrong return values, real-time order; a process that consumes no CPU for 30 s with operations outstanding is a deadlock.",
+            "~3000 short native histories with 2-8 threads, 1-3 locks and closures of varying duration plus 16-thread histories of 200 000 ops; 8 Miri schedules (64 thorough) of 3 threads x 6 ops; overlap flag, lost/duplicated/torn updates, wrong return values, real-time order; a process that consumes no CPU for 30 s with operations outstanding is a deadlock. Closed bursts (persistent workers released together, 1-3 calls each, then a barrier; 10^5-10^6 bursts) with a progress-based stall verdict and a probe call; a poisoning workload (a closure panics inside apply; later calls must return or unwind) natively and under Miri; a progress monitor for steady traffic.",
             "std::sync::Mutex is trusted; non-reentrant use only", "5 C20"),
 }
 
